@@ -28,12 +28,16 @@ THEOREMS = ["C08_mean_obliquity_polynomial", "C08_mean_obliquity_vs_IAU", "C08_t
             "C08_node_nutation_constants",
             "C08_nutation_longitude_structure", "C08_nutation_obliquity_structure", "C08_nutation_remainders",
             "C08_nutation_longitude_main_term", "C08_nutation_obliquity_main_term",
-            "C08_true_obliquity_closed", "C08_equation_of_equinoxes"]
+            "C08_true_obliquity_closed", "C08_equation_of_equinoxes",
+            "C08_earth_callee_shape", "C08_sun_geometric_unconditional", "C08_rectangular_of_date_norm_unconditional",
+            "C08_earth_j2000_callee_shape", "C08_rectangular_j2000_norm_unconditional",
+            "C08_rectangular_equinox_norm_unconditional", "C08_true_minus_mean_bound",
+            "C08_sun_apparent_unconditional"]
 PROOF_TIMEOUT = {"quick": 2200, "thorough": 3000}
 EXHAUSTIVE = False
 MANIFEST = {
     "category": "proof",
-    "text": "Ideal (real-number) instance of the regenerated model, Epoch arguments. PROPERTY CLAUSES PROVED: mean obliquity = Laskar polynomial and within 3 arcsec of the IAU cubic for |T| <= 20; nutation in longitude / obliquity within 3.5 / 1.5 arcsec of the main term on the Moon module's node for |T| <= 20 (generic loop theorem instantiated on the generated double loop, amplitude sums over the extracted tables, node polynomials bridged on both sides); true obliquity = mean + nutation unconditionally for |T| <= 20; Sun geometric/apparent position = Earth callee's result reflected (CONDITIONAL on the callee's documented result shape, which the bit-exact correspondence validates every run; errors propagate); J2000 rectangular norm = r to 2e-12 (same condition); arbitrary-equinox rotation exactly orthogonal; of-date rectangular norm^2 = r^2 (1 + sin^2 lat) (weaker than norm = r: needs |lat| small, unproved). REFUTED IN COQ (known findings): B1950 norm (~ C08_b1950_norm_full), equinox rotation vs Meeus T = 0 beyond 2 arcsec (~ C08_equinox_frame_full). CLOSED FORMS THAT ONLY PIN THE CODE (no property clause follows): rectangular_coordinates_j2000/_b1950/_equinox, true/apparent_longitude_coarse, Moon.longitude_mean_ascending_node. UNPROVED, SEARCHED ONLY: frame agreement with the library's precession (2 arcsec / 1e-5 AU; 3 genuine defects recorded as bounded known findings), coarse vs VSOP87 0.02 degree, date-argument forms other than Epoch, everything about binary64 rounding.",
+    "text": "Ideal (real-number) instance of the regenerated model, Epoch arguments. PROPERTY CLAUSES PROVED: mean obliquity = Laskar polynomial and within 3 arcsec of the IAU cubic for |T| <= 20; nutation in longitude / obliquity within 3.5 / 1.5 arcsec of the main term on the Moon module's node for |T| <= 20 (generic loop theorem instantiated on the generated double loop, amplitude sums over the extracted tables, node polynomials bridged on both sides); true obliquity = mean + nutation unconditionally for |T| <= 20; Sun geometric position = Earth's reflected, unconditionally for tofk5 = True over years -2000..6000 (the Earth callee's result shape and |lat| <= 0.00065 deg are proved from property C07's imported theorems about the VSOP87 evaluator and the regenerated tables); apparent position likewise for nutation = True over years 0..4000; the flag-off variants (tofk5 = False, nutation = False) stay CONDITIONAL on the callee's documented shape (validated by the correspondence every run; errors propagate); rectangular norms, all unconditional: of date | |xyz|/r - 1 | <= 2e-10 (exactly norm^2 = r^2 (1 + sin^2 lat): the code takes cos(lat) = 1 as Meeus does), J2000 and arbitrary equinox 2e-12; |true - mean obliquity| <= 9.2025 + 0.00089|T| + 0.89 arcsec. REFUTED IN COQ (known findings): B1950 norm (~ C08_b1950_norm_full), equinox rotation vs Meeus T = 0 beyond 2 arcsec (~ C08_equinox_frame_full). CLOSED FORMS THAT ONLY PIN THE CODE (no property clause follows): rectangular_coordinates_j2000/_b1950/_equinox, true/apparent_longitude_coarse, Moon.longitude_mean_ascending_node. UNPROVED, SEARCHED ONLY: frame agreement with the library's precession (2 arcsec / 1e-5 AU; 3 genuine defects recorded as bounded known findings), coarse vs VSOP87 0.02 degree, date-argument forms other than Epoch, everything about binary64 rounding.",
     "technique": "symbolic evaluation (pyrun / call-by-value pyrunv) of the generated model over the reals with opaque callees + interval/lra/ring; generated model + bit-exact differential correspondence; dense search for the numeric clauses",
     "design_ref": "8/C08",
 }
@@ -48,17 +52,17 @@ CLAUSES = {
     # wording: "property clause proved" = a clause of the property text is a theorem;
     #          "closed form (pins the code)" = the generated function equals an explicit formula: a mutation of any
     #          constant/sign breaks the proof, but no clause of the property follows from it.
-    "Sun geometric position = Earth position reflected (lon+180 reduced to [0,360), -lat, same r)": "property clause proved [ideal], CONDITIONAL on the Earth callee returning its documented shape (Angle, Angle, float) with stored degrees in (-360, 360); that shape is validated by the bit-exact correspondence every run, not by a Coq lemma (the callee is the VSOP87 evaluator, characterised in C07); tofk5 on/off; the other case - the callee errs - is proved to propagate the error (C08_sun_errors_propagate)",
-    "Sun apparent position = Earth apparent position reflected": "property clause proved [ideal], same condition on the Earth callee, nutation on/off; the code contains no step beyond the reflection",
-    "rectangular coordinates of date have norm r": "weaker than the clause: proved [ideal] norm^2 = r^2 (1 + sin^2 lat) exactly (the code omits Meeus' factor cos lat), conditional on the result shapes of Sun.geometric_geocentric_position / mean_obliquity (both satisfiable by C08's own theorems given the Earth callee's shape); norm = r to 2e-10 follows only for |lat| <= 0.001 deg (C08_latitude_term_small is pure mathematics); that the Sun's latitude stays that small is NOT proved (searched: 1.2 arcsec, norm off by at most 1.6e-11 AU)",
-    "J2000 rectangular coordinates have norm r": "property clause proved [ideal] to 2e-12 relative (constant matrix with |M^T M - I| <= 2e-12), conditional on the documented result shape of the J2000 Earth callee",
-    "arbitrary-equinox rectangular coordinates have norm r": "property clause proved [ideal]: closed form (pins the code) of the generated function = rotation of the J2000 vector (equinox within 3 centuries, JDE 2.0e6..2.9e6, J2000 callee abstracted), and that rotation is exactly orthogonal for all angles (C08_rectangular_equinox_norm)",
+    "Sun geometric position = Earth position reflected (lon+180 reduced to [0,360), -lat, same r)": "property clause proved [ideal]: for any result of the Earth callee of the documented shape, tofk5 on/off (C08_sun_geometric_is_earth_reflected; callee errors propagate: C08_sun_errors_propagate); UNCONDITIONALLY for tofk5 = True and every epoch in years -2000..6000 (C08_sun_geometric_unconditional): the callee's shape is itself proved (C08_earth_callee_shape, from property C07's imported theorems: VSOP87 evaluator = direct sum over the regenerated tables, FK5 correction, amplitude envelope), with |latitude| <= 0.00065 degree. tofk5 = False: still conditional on the shape",
+    "Sun apparent position = Earth apparent position reflected": "property clause proved [ideal]: for any result of the Earth callee of the documented shape, nutation on/off (C08_sun_apparent_is_earth_reflected; callee errors propagate); UNCONDITIONALLY for nutation = True and years 0..4000 (C08_sun_apparent_unconditional): apparent_vsop_pos on the Earth's tables = vsop_pos + FK5 + nutation (C08 structure theorem) + aberration (property C07's imported theorems), |lat| <= 0.00065 deg, 0.97 <= r <= 1.03 AU. nutation = False: still conditional on the shape; the code contains no step beyond the reflection",
+    "rectangular coordinates of date have norm r": "property clause proved [ideal, Epoch argument, years 0..4000], unconditionally: C08_rectangular_of_date_norm_unconditional: r^2 <= x^2+y^2+z^2 <= r^2 (1 + 4e-10), i.e. | |xyz|/r - 1 | <= 2e-10, against the 1e-5 AU of the property. The exact identity is norm^2 = r^2 (1 + sin^2 lat) (C08_rectangular_of_date_norm): the code follows Meeus (ch. 26: beta never exceeds 1.2 arcsec, cos beta taken as 1) and leaves out the factor cos(lat); the Sun's latitude is bounded by C08_earth_callee_shape (|lat| <= 0.00065 deg = amplitude sum 2.24 arcsec of the Earth's VSOP87 B series for |t| <= 4 millennia + FK5 term). On the implementation: worst | |xyz|/r - 1 | = 1.66e-11 over -16000..+16000 months around J2000 (at JDE 2304298.89, lat = 1.19 arcsec), equal to the predicted sqrt(1 + sin^2 lat) - 1: not a finding",
+    "J2000 rectangular coordinates have norm r": "property clause proved [ideal] to 2e-12 relative (constant matrix with |M^T M - I| <= 2e-12), unconditionally for every epoch in years -2000..6000 (C08_rectangular_j2000_norm_unconditional: the J2000 Earth callee's result shape is proved, C08_earth_j2000_callee_shape)",
+    "arbitrary-equinox rectangular coordinates have norm r": "property clause proved [ideal] to 2e-12 relative, unconditionally (C08_rectangular_equinox_norm_unconditional; equinox within 3 centuries of J2000.0, JDE 2.0e6..2.9e6): closed form (pins the code) of the generated function = rotation of the J2000 vector, that rotation is exactly orthogonal for all angles (C08_rectangular_equinox_norm), J2000 norm as above",
     "B1950 rectangular coordinates have norm r": "refuted: known finding norm-b1950 - closed form (pins the code) of the generated body (y uses the already rotated x, z the rotated x and y) and ~ C08_b1950_norm_full proved with the witness lon = 90, lat = 0, r = 1 (norm off by > 1e-7); implementation witness Sun.rectangular_coordinates_b1950(Epoch(2089055.144)): norm 1.00744, r = 1.01526",
     "J2000/B1950/arbitrary equinox positions = of-date position carried by the library's precession, 2 arcsec / 1e-5 AU, 1000-3000": "UNPROVED as a clause (searched); refuted on the implementation under known findings frame-j2000, frame-earth-j2000 (VSOP87_L_J2000 frequency typo 12556.15 for 12566.15, up to 144 arcsec), frame-b1950 (variable overwrite, up to 6925 arcsec), frame-equinox (T = epoch-equinox instead of 0, up to 234 arcsec); the same clause holds to 0.8 arcsec for the defect-free recomputation from the library's tables (searched). In Coq only: closed forms (pin the code) of the three generated functions (C08_rectangular_j2000/b1950/equinox_closed_form; C08_equinox_angles is a constant read-out), and two refutations on those closed forms: ~ C08_b1950_norm_full, and ~ C08_equinox_frame_full = the generated equinox rotation is NOT within 2 arcsec of the rotation Meeus prescribes (T = 0) at epoch 1000 / equinox 2300 (C08_equinox_T_refuted is the weaker polynomial-identity form). The J2000 table typo has no Coq statement",
     "mean obliquity within 3 arcsec of the IAU cubic for |T| <= 20": "property clause proved [ideal, for an Epoch argument]: the generated function is the explicit Laskar polynomial and interval bounds it against the independent IAU cubic",
     "nutation in longitude within 3.5 arcsec of -17.20 sin(Omega), Omega = Moon.longitude_mean_ascending_node": "property clause proved [ideal, Epoch argument, |T| <= 20 centuries]: C08_nutation_longitude_main_term - the generated double loop is an instance of the generic loop theorem (C08_nut_loop.nut_fix_spec, induction, any table length; unification with the generated text), so nutation_longitude = Angle(0,0, sum_i (a_i + b_i T) sin(sum_j n_ij F_j(T))/1e4) on the extracted tables (C08_nutation_longitude_structure); the rows after the first are bounded by their amplitudes read from the table: 2.25 arcsec (C08_nutation_remainders); the code's node polynomial is C08_node.node_nutation (reflexivity) and within 0.0024 deg of the Moon module's (C08_node_agreement, < 0.001 arcsec on the main term). Binary64 rounding: searched (worst 2.43 arcsec over -2000..4000)",
     "nutation in obliquity within 1.5 arcsec of 9.20 cos(Omega)": "property clause proved [ideal, Epoch argument, |T| <= 20 centuries]: C08_nutation_obliquity_main_term, same construction with the cosine table (49 rows; remainder 0.89 arcsec from the extracted amplitudes). Binary64 rounding: searched (worst 0.83 arcsec over -2000..4000)",
-    "true obliquity = mean obliquity + nutation in obliquity": "property clause proved [ideal, Epoch argument, |T| <= 20], unconditionally: C08_true_obliquity_closed supplies both callee results from their own theorems (mean_obliquity polynomial, nutation_obliquity structure) and gives true_obliquity = ang(mean + deps/3600); C08_true_obliquity_structure is the form valid for any result of nutation_obliquity (errors propagate); C08_true_obliquity_is_sum is the conditional corollary, its premises now shown satisfiable",
+    "true obliquity = mean obliquity + nutation in obliquity": "property clause proved [ideal, Epoch argument, |T| <= 20], unconditionally: C08_true_obliquity_closed supplies both callee results from their own theorems (mean_obliquity polynomial, nutation_obliquity structure) and gives true_obliquity = ang(mean + deps/3600); C08_true_obliquity_structure is the form valid for any result of nutation_obliquity (errors propagate); C08_true_obliquity_is_sum is the conditional corollary, its premises now shown satisfiable; size: |true - mean| <= 9.2025 + 0.00089 |T| + 0.89 arcsec (C08_true_minus_mean_bound)",
     "(clause of C16, proved here because this model contains Coordinates AND Epoch) apparent - mean sidereal time under 1.2 s": "proved [ideal, Epoch argument, T in [-10.5, 8.5] centuries = years 950..2850]: C08_equation_of_equinoxes - Epoch.apparent_sidereal_time applied to the values the generated true_obliquity and nutation_longitude return differs from mean_sidereal_time by less than 1.2 s (nutation amplitude from C08_nutation_remainders, obliquity from C08_true_obliquity_closed, interval arithmetic on dpsi_max(T) cos(eps(T))/15; the worst-case amplitude bound gives 1.2001 s at T = -11 and 1.2003 s at T = 9, so this is the largest provable range with it); outside: searched in C16 (known finding beyond years -2000..4000)",
     "coarse solar formulas within 0.02 degree of VSOP87 in 1800-2200": "UNPROVED (searched): worst 0.0095 degree; global numeric statement about a 1000-term series. In Coq only closed forms (pin the code): true_longitude_coarse for |t| <= 10 centuries, apparent_longitude_coarse with its callee abstracted; C08_coarse_constants is a constant read-out; apparent_rightascension_declination_coarse has no theorem",
     "date arguments in every accepted form": "UNPROVED (searched): all theorems are for an Epoch argument; the other forms go through Epoch.check_input_date (C02); every documented form of a calendar day gives the same Angle (searched)",
@@ -66,10 +70,20 @@ CLAUSES = {
 }
 
 
+# proof files of property C07 that C08 imports (VSOP87 evaluator = direct sum, FK5 correction, amplitude
+# envelopes over the extracted tables); entries "../C07/x.v" are compiled inside this property's build
+C07_DEPS = ["C07_defs.v", "C07_lib.v", "C07_angle.v", "C07_sec_a.v", "C07_sec_b.v", "C07_sec_c.v", "C07_sec.v",
+            "C07_series.v", "C07_corr.v", "C07_mono.v", "C07_dec.v", "C07_mono_code.v", "C07_mono_earth.v"]
+N_PA = 10   # C08_pa_<k>.v: Print Assumptions of the theorems of C08.v, compiled in parallel
+
+
 def proof_files(tier):
-    return ["C08_base.v", "C08_obliquity.v", "C08_sun.v", "C08_j2000.v", "C08_angle2.v", "C08_frames.v",
-            "C08_equinox.v", "C08_coarse.v", "C08_node.v",
-            "C08_nut_angle.v", "C08_nut_loop.v", "C08_nut_main.v", "C08_nut_bound.v", "C08_true.v", "C08_eqeq.v", "C08.v"]
+    return (["C08_base.v", "C08_obliquity.v", "C08_sun.v", "C08_j2000.v", "C08_angle2.v", "C08_frames.v",
+             "C08_equinox.v", "C08_coarse.v", "C08_node.v",
+             "C08_nut_angle.v", "C08_nut_loop.v", "C08_nut_main.v", "C08_nut_bound.v", "C08_true.v", "C08_eqeq.v"]
+            + ["../C07/" + f for f in C07_DEPS]
+            + ["C08_lat.v", "C08_latj.v", "C08_uncond.v", "C08_app.v", "C08.v"]
+            + ["C08_pa_%d.v" % k for k in range(N_PA)])
 
 
 # ----------------------------------------------------------------------------------------------
